@@ -308,11 +308,29 @@ Definition parse_op (f : list N) : pop :=
 Definition obs_of (s : ps) (out : list N) : list N :=
   [status s; nbytes s; stops s; b2n (negb (stopped s))] ++ out.
 
+(* operation 10 of the engines: the application abandons the payload (the reader task, and with it the `Payload`, is
+   dropped): the sender's Weak no longer upgrades, what is fed from now on goes nowhere -- the rest of the payload
+   and every later packet are decoded and handled as before.  A Dispatcher::ready suspended in `pl.ready()` is
+   released by the drop and reports the readiness error. *)
+Definition op_abandon (c : cfg) (s : ps) : res (ps * list N) :=
+  (* (a reader that has finished holds nothing to abandon; the engines leave its last status on display) *)
+  if stopped s || (2 <=? status s) then Ok (s, []) else
+  let s1 := set_rdr s None in
+  if parked s1 then
+    let* (s2, out) := do_end c s1 RError in Ok (s2, if pclosed s2 then [] else out)
+  else Ok (s1, []).
+
+Definition engine_step (c : cfg) (s : ps) (f : list N) : res (ps * list N) :=
+  match f with
+  | [10] => op_abandon c s
+  | _ => pstep c s (parse_op f)
+  end.
+
 Fixpoint run_fields (c : cfg) (s : ps) (fs : list (list N)) : res (list (list N)) :=
   match fs with
   | [] => Ok []
   | f :: r =>
-    let* (s', out) := pstep c s (parse_op f) in
+    let* (s', out) := engine_step c s f in
     let* rest := run_fields c s' r in
     Ok (obs_of s' out :: rest)
   end.
